@@ -131,7 +131,7 @@ def bounded(tier, seed, procs):
                                expected="coefficients", actual=outcome.describe(r), functions=["CoefficientCollector.map_algebraic_leaf"]))
     # affine solver
     b2 = BoundedRun("affine-solver", rule="integer systems A u = B p + c with 1..3 unknowns, entries in {-2..2} (seeded sample of the full box), all row permutations, 0..2 parameters, "
-                    "square and with one redundant equation: accepted => every equation holds identically in the parameters after substituting the result (checked at 8 exact points; "
+                    "square and with one redundant equation, each also with every unknown, parameter and constant spread over both sides of its equation: accepted => every equation holds identically in the parameters after substituting the result (checked at 8 exact points; "
                     "both sides affine); singular systems or non-integral solutions => raises; non-trivial = all", bound="600 (quick) / 4000 systems", functions=["solve_affine_equations_for", "gaussian_elimination"])
     rnd = random.Random(seed)
     names = ["u", "v", "w"]
@@ -150,9 +150,23 @@ def bounded(tier, seed, procs):
             c = [sum(A[i][j] * sol[j][npar] for j in range(nu)) for i in range(nu)]
         us = [p.Variable(n_) for n_ in names[:nu]]
         eqs = []
+        two_sided = t % 2 == 1          # the same equations with every symbol spread over both sides (and repeated on one side)
         for i in range(nu):
-            lhs = p.flattened_sum([A[i][j] * us[j] for j in range(nu)])
-            rhs = p.flattened_sum([B[i][k] * params[k] for k in range(npar)] + [c[i]])
+            if not two_sided:
+                lhs = p.flattened_sum([A[i][j] * us[j] for j in range(nu)])
+                rhs = p.flattened_sum([B[i][k] * params[k] for k in range(npar)] + [c[i]])
+            else:
+                ku = [rnd.randint(-2, 2) for _ in range(nu)]
+                kp = [rnd.randint(-2, 2) for _ in range(npar)]
+                kc = rnd.randint(-3, 3)
+                lt = [(A[i][j] + ku[j]) * us[j] for j in range(nu)] + [kp[k] * params[k] for k in range(npar)] + [kc]
+                rt = [ku[j] * us[j] for j in range(nu)] + [(B[i][k] + kp[k]) * params[k] for k in range(npar)] + [c[i] + kc]
+                if rnd.random() < 0.5 and nu:
+                    lt.append(us[0])
+                    rt.append(us[0])
+                rnd.shuffle(lt)
+                rnd.shuffle(rt)
+                lhs, rhs = p.flattened_sum(lt), p.flattened_sum(rt)
             eqs.append((lhs, rhs))
         perm = list(range(nu))
         rnd.shuffle(perm)
